@@ -31,7 +31,7 @@ def dom_canaries(traces, rng, count=10):
             cand = [e for e in evs if e['snaps']]
             e = rng.choice(cand)
             s = e['snaps'][-1]
-            s['opts'] = [o for o in s['opts'] if bytes(o['k']) != b'version'] or [{'k': [120], 's': [49], 't': 'int'}]
+            s['opts'] = s['opts'][1:] if s['opts'] else [{'k': [120], 's': [49], 't': 'int'}]
         elif kind == 1:
             cand = [e for e in evs if e['k'] == 'ser' and e['status'] == 'ok' and z['chk']['bytes']]
             if not cand:
